@@ -12,6 +12,7 @@ import (
 	"context"
 	"fmt"
 	"math/rand/v2"
+	"net"
 	"net/netip"
 	"sync"
 	"sync/atomic"
@@ -287,6 +288,38 @@ func vfC06Run(e *vfEnv, r *vfResult, idx int) { //nolint:cyclop
 			if sn.Err == nil {
 				s.r.set("c06_final_states", sn.State.String())
 			}
+		}
+		// the generation continues after Failed (same credentials): candidates that arrive later (continual
+		// gathering adds them through the same internal path) are paired again; ids must not be reused
+		for _, x := range s.sides() {
+			sn := x.snapshot()
+			if sn.Err != nil || sn.State != ConnectionStateFailed {
+				continue
+			}
+			ip := fmt.Sprintf("10.%d.77.1", map[string]int{"A": 0, "B": 1}[x.name])
+			n := vfSimpleNet(s.sw, x.name, ip)
+			conn, err := n.ListenUDP("udp", &net.UDPAddr{IP: net.ParseIP(ip)})
+			if err != nil {
+				continue
+			}
+			vc := conn.(*vfConn) //nolint:forcetypeassert
+			hc, err := NewCandidateHost(&CandidateHostConfig{Network: "udp", Address: ip, Port: int(vc.local.Port()), Component: 1})
+			if err != nil {
+				continue
+			}
+			s.step("late-local-candidate", x.name, 0, ip)
+			if err := x.a.addCandidate(context.Background(), hc, conn); err != nil {
+				_ = conn.Close()
+
+				continue
+			}
+			_ = x.awaitReaders()
+			for _, pc := range s.other(x).localCandsAll {
+				if rc, err := UnmarshalCandidate(pc); err == nil {
+					s.addRemoteStep(x, rc, "late remote "+vfCandAddr(rc))
+				}
+			}
+			s.r.count("c06_pairs_after_failed", 1)
 		}
 	}
 	s.emittedCheck(0)
